@@ -22,7 +22,8 @@ EXPLANATION = (
     'on value-class instances (0, FALSE, blank and the empty text select the else-branch); (C10.6) a failed branch '
     'evaluation leaves no trace on the evaluator (shared with C06.2). (C10.7) a witness workbook: truth of tiny non-zero '
     'numbers, blanks, ranges of formula cells, branches that would fail if evaluated, nested IF/AND/OR against hand-'
-    'computed values, and a history of edits against freshly compiled models.')
+    'computed values, and a history of edits against freshly compiled models.'
+    ' (C10.7) also unknown functions of every spelling in branches that are not selected, the workbook loaded through the reader path, ranges written in lower case.')
 NOT_DECIDED = 'truth tables over concrete values and blanks'
 TRUSTED = ['inspect.signature binding model of FunctionNode.eval', 'workbook scenarios: pandas storage of range arrays as row-major rows, numpy on Python numbers (IEEE results, 64-bit integer wrap), dateutil.parser.parse rejecting texts that are no dates, openpyxl address arithmetic, inspect.signature built from the FunctionDef']
 
